@@ -93,6 +93,23 @@ Theorem coap_in_window_partial : forall h,
     /\ forall e, exists m, under (e, A2C) (l_acc (c_log (coap_run coap_init h))) = pref (e, A2C) m.
 Proof. exact coap_in_window_l. Qed.
 
+(* a context that is gone (coap_ctx = None: after a timeout, a 4.04 response, or the failed resynchronisation)
+   transmits nothing any more, whatever else happens short of a new pair-verify - requests are still
+   encrypted but never leave the controller.  In particular the nonce-0 frame of coap_nonce_reuse_refuted's
+   short witness is never sent; only the zero-reset path of coap_wire_nonce_reuse_refuted reaches the network. *)
+Theorem coap_dead_context_transmits_nothing : forall h s,
+    c_alive s = false -> forallb not_reconnect h = true ->
+    l_wire (c_log (coap_run s h)) = l_wire (c_log s).
+Proof. exact coap_dead_context_l. Qed.
+
+(* post_bytes on a 4.04 Not Found response: the context is shut down (and the payload still decrypted);
+   nothing is transmitted afterwards until the next pair-verify *)
+Theorem coap_not_found_kills_context : forall h1 h2,
+    c_infl (coap_run coap_init h1) <> None -> forallb not_reconnect h2 = true ->
+    l_wire (c_log (coap_run coap_init (h1 ++ Next404 :: h2)))
+    = l_wire (c_log (coap_run coap_init (h1 ++ [Next404]))).
+Proof. exact coap_not_found_l. Qed.
+
 (* ------------------------------------------------------------ non-vacuity *)
 Example c06_ip_nonvacuous :
   let h1 := [Send 1025 0; Next; Send 1 0; Replay 0] in
@@ -125,6 +142,15 @@ Example c06_ble_write_refused :
      = [((0, C2A), 0); ((0, C2A), 1); ((1, C2A), 0)].
 Proof. cbv zeta. repeat split; vm_compute; reflexivity. Qed.
 
+Example c06_coap_not_found :
+  let h1 := [Send 1 0; Next; Send 1 0] in
+  let h2 := [Send 1 0; Send 1 0; Next; ENext] in
+  c_infl (coap_run coap_init h1) <> None /\ forallb not_reconnect h2 = true
+  /\ l_seal (c_log (coap_run coap_init (h1 ++ Next404 :: h2))) = [((0, C2A), 0); ((0, C2A), 1); ((0, C2A), 2); ((0, C2A), 3)]
+  /\ l_wire (c_log (coap_run coap_init (h1 ++ Next404 :: h2))) = [((0, C2A), 0); ((0, C2A), 1)]
+  /\ l_acc (c_log (coap_run coap_init (h1 ++ Next404 :: h2))) = [((0, A2C), 0); ((0, A2C), 1); ((0, EVT), 0)].
+Proof. cbv zeta. repeat split; try (vm_compute; reflexivity). vm_compute. discriminate. Qed.
+
 Example c06_coap_nonvacuous :
   let h := [Send 1 0; Next; ENext; EReplay 0; ENext; ECorrupt; Send 1 0; Cancel; Send 1 0; Timeout; Reconnect; Send 1 0; Next] in
   resp_opens_ok (c_log (coap_run coap_init h)) = true
@@ -146,3 +172,5 @@ Print Assumptions coap_replay_refuted.
 Print Assumptions coap_nonce_reuse_refuted.
 Print Assumptions coap_wire_nonce_reuse_refuted.
 Print Assumptions coap_in_window_partial.
+Print Assumptions coap_dead_context_transmits_nothing.
+Print Assumptions coap_not_found_kills_context.
